@@ -2,7 +2,6 @@ package checks
 
 import (
 	"bytes"
-	"errors"
 	"fmt"
 	"testing"
 
@@ -155,6 +154,8 @@ func runC03(t *testing.T, tape *sim.Tape, tier string) *Outcome {
 	cfg := drawPipelineCfg(tape, tier)
 	reqs := genPipeline(tape, cfg)
 	// pre-drawn handler fault plan (no draws inside server goroutines)
+	// half of the runs with handler errors use errors that wrap well-known sentinel errors
+	errIdentities := tape.Draw(2, "erridentities") == 1
 	inject := make([]bool, 6*len(reqs)+8)
 	for i := range inject {
 		inject[i] = cfg.ErrRate > 0 && tape.Draw(8, "inject") < cfg.ErrRate
@@ -182,7 +183,7 @@ func runC03(t *testing.T, tape *sim.Tape, tier string) *Outcome {
 			if ri := len(c.reqOfCall) - 1; ri >= 0 {
 				injectedReq[c.reqOfCall[ri]] = true
 			}
-			return nil, errors.New("E" + wl.Tok(call.Seq))
+			return nil, wl.InjectedError(call.Seq, errIdentities)
 		}
 		if call.Seq < len(degenerate) && degenerate[call.Seq] > 0 {
 			// stored values a real store may well hold: empty strings, empty collections, absent keys
